@@ -57,7 +57,7 @@ def rule_eq(ctx: Ctx, rule: str = "eq-fields") -> None:
             ctx.cannot_decide(rule, cname + ".__eq__", "__eq__", "anchor vanished")
             continue
         me, ot = fi.params[0], fi.params[1]
-        fields = [f for f in state_fields(prog, cname)]
+        fields = [f for f in state_fields(prog, cname) if f not in const_initialised_fields(prog, cname)]
         # E1: no self-vs-self / other-vs-other comparison
         for node in ast.walk(fi.node):
             pairs = []
@@ -132,6 +132,42 @@ def _first_attr(e: ast.AST) -> Optional[str]:
     return chain[-1] if chain else None
 
 
+def const_initialised_fields(prog: Program, cname: str) -> Set[str]:
+    """Fields the constructor sets to a literal (caches / flags), not derived from its arguments."""
+    init = prog.resolve_method(cname, "__init__")
+    out: Set[str] = set()
+    if init is None:
+        return out
+    me = init.params[0]
+    for node in ast.walk(init.node):
+        tg, val = None, None
+        if isinstance(node, ast.Assign):
+            tg, val = node.targets[0], node.value
+        elif isinstance(node, ast.AnnAssign):
+            tg, val = node.target, node.value
+        if isinstance(tg, ast.Attribute) and isinstance(tg.value, ast.Name) and tg.value.id == me and isinstance(val, ast.Constant):
+            out.add(tg.attr)
+    return out
+
+
+def cache_field_is_sound(prog: Program, cname: str, field: str, compared: Set[str]) -> Optional[str]:
+    """A memo field read by __hash__ is sound only if it is written nowhere but (a) the constructor (literal) and
+    (b) __hash__ itself from compared state.  Returns a reason if it is not."""
+    for fi in prog.all_functions():
+        if isinstance(fi.node, ast.Lambda):
+            continue
+        for node in ast.walk(fi.node):
+            tgts = node.targets if isinstance(node, ast.Assign) else [node.target] if isinstance(node, (ast.AugAssign, ast.AnnAssign)) else []
+            for t in tgts:
+                if isinstance(t, ast.Attribute) and t.attr == field:
+                    if fi.cls is not None and fi.cls.name == cname and fi.name == "__init__" and isinstance(getattr(node, "value", None), ast.Constant):
+                        continue
+                    if fi.cls is not None and fi.cls.name == cname and fi.name == "__hash__" and isinstance(t.value, ast.Name) and t.value.id == fi.params[0]:
+                        continue
+                    return "%s writes .%s (`%s`): a memoised hash that travels with / survives later in-place edits goes stale" % (fi.key, field, norm(node)[:70])
+    return None
+
+
 def rule_hash(ctx: Ctx, rule: str = "hash-fields") -> None:
     """C19 E3: wherever __eq__ is defined and instances are hashed, __hash__ is defined and reads only state that
     __eq__ compares (so equal objects hash equally)."""
@@ -157,6 +193,14 @@ def rule_hash(ctx: Ctx, rule: str = "hash-fields") -> None:
         fields = set(state_fields(prog, cname))
         construct = "%s.__hash__ depends only on state that __eq__ compares" % cname
         extra = {u for u in used if u in fields and u not in compared}
+        caches = const_initialised_fields(prog, cname)
+        for u in sorted(extra & caches):
+            why = cache_field_is_sound(prog, cname, u, compared)
+            if why is None:
+                extra.discard(u)
+            else:
+                ctx.violation(rule, fi.key, "%s.__hash__ memo field %s is only written by the constructor and by __hash__" % (cname, u), why, where=fi.where)
+                extra.discard(u)
         ident = [nd for nd in ast.walk(fi.node) if isinstance(nd, ast.Call) and isinstance(nd.func, ast.Name) and nd.func.id == "id"]
         if extra or ident:
             ctx.violation(rule, fi.key, construct, "hash reads %s" % (sorted(extra) or "object identity"), where=fi.where)
@@ -286,6 +330,15 @@ def rule_nested_le(ctx: Ctx, rule: str = "nested-forall-exists") -> None:
                     okshape = False
         construct = "nested <=: True iff every left alternative refines some right alternative"
         want = all(outer)
+        entered = any(t.startswith("loop@") for (t, _c) in p.decisions)
+        if not entered:
+            # returned before looking at any alternative: only 'the left side has no alternative' justifies True
+            left_empty = any(e["kind"] == "branch" and mentions(e["test"], lambda x: x == ("attr", ("param", me), "nested_termlist")) and not mentions(e["test"], lambda x: x == ("attr", ("param", ot), "nested_termlist")) for e in p.events)
+            if p.value == const(True) and left_empty:
+                ctx.ok(rule, fi.key, construct + " (empty left side) @ " + p.label()[:40])
+            else:
+                ctx.violation(rule, fi.key, construct, "answers %s without comparing any alternative (path %s): an empty right side contains nothing" % (show(p.value), p.label()), where=fi.where)
+            continue
         if not okshape:
             ctx.violation(rule, fi.key, construct, "alternatives are compared as %s" % [show(e["test"], 3) for e in p.events if e["kind"] == "branch"][:2], where=fi.where)
         elif p.value == const(want):
